@@ -4,8 +4,34 @@ import "math/rand/v2"
 
 // applyKnownFindingSplits keeps the ingredients of an unfixed finding that is
 // owned by another property's check out of this run's configuration (see
-// DESIGN.md §9 and known_findings.json).
+// DESIGN.md §9 and known_findings.json). Each rule names the finding it
+// belongs to and disappears when that finding is fixed.
+//
+// The rules are narrow on purpose: a run either has garbage collection
+// switched off everywhere and keeps the whole alphabet, or keeps GC and drops
+// one of the two operations a finding needs.
 func applyKnownFindingSplits(r *rand.Rand, cfg *RunConfig) {
-	_ = r
-	_ = cfg
+	gcOn := !(cfg.ClientDisableGC && cfg.ServerDisableGC)
+	if !gcOn {
+		return
+	}
+	risky := (cfg.Kinds["arrset"] > 0 && cfg.Kinds["arrmove"] > 0) || cfg.Kinds["tree"] > 0
+	if risky && r.IntN(2) == 0 {
+		cfg.ClientDisableGC, cfg.ServerDisableGC = true, true
+		return
+	}
+	// F-C03-array-set-after-move: ArraySet on a moved element resolves to a
+	// slot that depends on whether the dead original slot was purged.
+	if cfg.Kinds["arrset"] > 0 && cfg.Kinds["arrmove"] > 0 {
+		if r.IntN(2) == 0 {
+			delete(cfg.Kinds, "arrset")
+		} else {
+			delete(cfg.Kinds, "arrmove")
+		}
+	}
+	// F-C03-tree-edit-in-deleted-element: a text edit inside an element that
+	// a peer deleted concurrently fails to apply once the peer collected it.
+	if cfg.Kinds["tree"] > 0 {
+		cfg.Kinds["tree_noedel"] = 1
+	}
 }
